@@ -19,10 +19,27 @@ class VerifHang(BaseException):
     pass
 
 
+# A chain of values that stand for one another never takes more steps than there
+# are definitions in the program; far beyond that it is going round in circles
+MAX_WAIT_STEPS = 10000
+
+
 def wait(deferred):
     _verif_steps = 0
+    visited = None
     while isinstance(deferred, BaseDeferred):
-        deferred = deferred.wait()
+        value = deferred.wait()
+        if isinstance(value, BaseDeferred):
+            # Values that stand for one another (x = y, y = x) never reach a
+            # number: that is a cycle, too. Most are recognised by meeting the
+            # same object again; a definition like x = x + 1 produces a new
+            # expression at every step and is stopped by the step limit.
+            if visited is None:
+                visited = []
+            if value is deferred or any(value is seen for seen in visited) or len(visited) > MAX_WAIT_STEPS:
+                raise DeferredCycle()
+            visited.append(deferred)
+        deferred = value
         if _VERIF_BUDGET:
             _verif_steps += 1
             if _verif_steps > _VERIF_BUDGET:
@@ -309,6 +326,9 @@ class LinearPolynomial(BaseDeferred):
                 key = key.get_current_best_estimate()
 
             if isinstance(key, LinearPolynomial):
+                if variable in key.coeffs:
+                    # x = x + 1
+                    raise DeferredCycle()
                 new_coeffs += [(key1, value1 * value) for key1, value1 in key.coeffs.items()]
                 new_constant_term += key.constant_term * value
             elif isinstance(key, BaseDeferred):
